@@ -10,16 +10,21 @@ import MemchrModel.Driver.Prefilter
 import MemchrModel.Driver.ShiftOrPair
 import MemchrModel.Driver.PackedPair
 import MemchrModel.Driver.Swar
+import MemchrModel.Driver.MemchrApi
 
 open Memchr Memchr.Driver
 
 def handlers : List (String → List String → Option String) :=
-  [handleGeneric, handleIsEqualRk, handleTwoWay, handlePrefilter, handleShiftOrPair, handlePackedPair, handleSwar]
+  [handleGeneric, handleIsEqualRk, handleTwoWay, handlePrefilter, handleShiftOrPair, handlePackedPair, handleSwar, handleMemchrApi]
 
 def step (line : String) : String :=
   match line.trimAscii.toString.splitOn " " with
   | [] => "bad-op"
   | op :: args =>
+    -- `memchrd`/`countd`/`iterd` are the dispatched public functions: for the model they are
+    -- the same routine on the backend named in the op (the one `select` picks in that process)
+    let op := if op == "memchrd" then "memchr" else if op == "countd" then "count"
+              else if op == "iterd" then "iter" else op
     match handlers.findSome? (fun h => h op args) with
     | some out => out
     | none => "bad-op"
